@@ -49,4 +49,16 @@ var specs = map[string]propSpec{
 		},
 		Assumptions: refAssumptions(),
 	},
+	"C02": {
+		Units: []unitSpec{
+			{Name: "rapid-predicates", Test: "TestC02Rapid", Rapid: true, QuickChecks: 40000, ThoroughChecks: 600000, QuickShards: 4, ThoroughShards: 16},
+		},
+		Assumptions: refAssumptions("node-sets that are converted to a string or counted inside predicates are flat paths while the known findings KF-A/KF-B are confirmed present"),
+	},
+	"C03": {
+		Units: []unitSpec{
+			{Name: "rapid-positional", Test: "TestC03Rapid", Rapid: true, QuickChecks: 50000, ThoroughChecks: 600000, QuickShards: 4, ThoroughShards: 16},
+		},
+		Assumptions: refAssumptions("positional predicates only where C03 claims them: first predicate of child-axis steps, or [n] on a parenthesised flat path; integers 1..6"),
+	},
 }
